@@ -1,7 +1,7 @@
 (* C01 — Two endpoints built on the library interoperate, even across transport loss.
    Statements only.  Nothing else may be added to this file. *)
 From MQ Require Import Base.Prelude Alloc.Alloc Framing.Framing Framing.FramingProofs Conn.Types Conn.ConnRecord Conn.Step
-                       Corr.ConnTrace Conn.Scope Conn.Session Conn.IdsQuota Conn.Own Conn.OwnStep Conn.Run Conn.PairQos Conn.PairQos5 Conn.PairSeq Conn.PairSeq5 Conn.PairConc Conn.PairBi Conn.PairConc5 Conn.SessInv Conn.PairLoss Conn.PairLossAcc Conn.PairLossS.
+                       Corr.ConnTrace Conn.Scope Conn.Session Conn.IdsQuota Conn.Own Conn.OwnFrame Conn.OwnStep Conn.Run Conn.PairQos Conn.PairQos0 Conn.PairQos5 Conn.PairSeq Conn.PairSeq5 Conn.PairConc Conn.PairBi Conn.PairConc5 Conn.SessInv Conn.PairLoss Conn.PairLossAcc Conn.PairLossS.
 
 (* what the pair property rests on, each proved for ALL states of one endpoint:
    (i) delivery in any fragmentation is the same byte stream (C09) *)
@@ -67,6 +67,15 @@ Theorem C01_pair_qos2_completes : forall gs gr cs cr p,
     mem (k_pid p) (c_puback cs3) = false /\ mem (k_pid p) (c_pubrec cs3) = false /\ mem (k_pid p) (c_pubcomp cs3) = false.
 Proof. exact qos2_completes. Qed.
 Print Assumptions C01_pair_qos2_completes.
+
+(* QoS 0: requested for sending, notified once, and nothing is kept by either side (allocator, store, awaited sets, handled
+   set untouched) — so nothing can be retransmitted after a loss: at most once by construction *)
+Theorem C01_pair_qos0_delivered : forall gr cs cr p, ready cs -> ready cr -> v311_pub p 0 ->
+  exists cs1 e1 cr1 e2,
+    send_publish_v311 cs p = Ok (cs1, e1) /\ sends e1 = [p] /\ errors e1 = [] /\ released e1 = [] /\ F8 cs1 cs /\
+    deliver gr cr p = Ok (cr1, e2) /\ notifies e2 = [p] /\ sends e2 = [] /\ errors e2 = [] /\ F8 cr1 cr /\ c_qos2 cr1 = c_qos2 cr.
+Proof. exact qos0_delivered. Qed.
+Print Assumptions C01_pair_qos0_delivered.
 
 (* v5.0: the same two exchanges, with the Receive Maximum account.  Premises on top of the v3.1.1 ones: no topic alias
    in play (the packet carries a topic and no alias, no alias table for sending), the PUBLISH fits the peer's Maximum
